@@ -795,14 +795,18 @@ impl BuiltInFunction {
                     format!("`{power}` is an invalid power for int bases (valid >= 0)")
                 })?;
 
-                let result: Primitive = match this {
-                    Primitive::Int(i32) => Primitive::BigInt(i32.pow(power_non_fp) as i128),
-                    Primitive::BigInt(i128) => Primitive::BigInt(i128.pow(power_non_fp)),
-                    Primitive::Byte(u8) => Primitive::BigInt(u8.pow(power_non_fp) as i128),
+                let base: i128 = match this {
+                    Primitive::Int(i32) => i128::from(*i32),
+                    Primitive::BigInt(i128) => *i128,
+                    Primitive::Byte(u8) => i128::from(*u8),
                     bad => unreachable!("{bad}"),
                 };
 
-                Ok((Some(result), None))
+                let result = base.checked_pow(power_non_fp).with_context(|| {
+                    format!("`{base}` to the power of `{power}` does not fit in a bigint")
+                })?;
+
+                Ok((Some(Primitive::BigInt(result)), None))
             }
             Self::GenericPowf => {
                 let Some(this) = arguments.first() else {
